@@ -231,15 +231,15 @@ fn plan(prop: &str, tier: &str) -> Vec<ClassPlan> {
     match prop {
         "C07" => vec![
             ClassPlan { class: "small", total: n(1_200_000, 40_000_000) },
-            ClassPlan { class: "big", total: n(48, 2_400) },
+            ClassPlan { class: "big", total: n(1_600, 60_000) },
         ],
         "C08" => vec![
             ClassPlan { class: "small", total: n(800_000, 30_000_000) },
-            ClassPlan { class: "big", total: n(32, 1_600) },
+            ClassPlan { class: "big", total: n(1_200, 40_000) },
         ],
         "C18" => vec![
             ClassPlan { class: "small", total: n(60_000, 3_000_000) },
-            ClassPlan { class: "big", total: n(16, 400) },
+            ClassPlan { class: "big", total: n(160, 6_000) },
         ],
         "C17" => threadsim::plan(thorough, s),
         _ => vec![],
